@@ -133,6 +133,11 @@ ParamsThorough ==
       P({6, 7, 8}, 4, 1, {"y6", "o", "os", "oi"}, Fr(2, 1), {Half}, {1, 2, 3, 4}, {"fresh"}),
       P(2..6, 3, 2, {"y", "o", "os"}, Fr(2, 1), {Half}, {0, 2}, {"stale", "almost"}) }
 
+\* simulation: larger populations, all age classes, all modes (MaxN = 10)
+ParamsSim ==
+    { P({n}, 5, 3, {"y", "ys", "o", "os", "oz", "y10", "o11", "oi", "y6"}, Fr(2, 1), {Fr(1, 4), Half}, 0..5, {"fresh", "stale", "almost"}) : n \in {8, 9, 10} }
+    \cup { P({n}, 5, 2, {"y6", "o", "os", "oi"}, Fr(3, 2), {Fr(3, 4)}, 2..5, {"fresh"}) : n \in {7, 10} }
+
 (* ---------------- properties (C09) ---------------- *)
 Counted == pc \in {"counted", "done"}
 Redistributed == pc = "done"
